@@ -137,6 +137,83 @@ Section Compile.
         * destruct (P2 _ _ Hin) as [a1 Ha1]. exists a1. apply in_or_app. left. exact Ha1.
   Qed.
 
+  (* ---------- totality of the two for loops; the measure that bounds the number of pops ---------- *)
+  Lemma nb_is_atom n m : In m (keys (adj_get bonds n)) -> exists a, zget atoms m = Some a.
+  Proof. destruct wf as (_ & _ & _ & _ & H & _). intros Hm. apply In_key_zget. apply (H n m Hm). Qed.
+
+  Lemma atom_has_adj n : In n (keys atoms) -> exists nbs, zget bonds n = Some nbs.
+  Proof. destruct wf as (_ & _ & H & _). intros Hn. apply In_key_zget. apply H. exact Hn. Qed.
+
+  Lemma cq_scan_total front back seen : forall (nbs : list (Z * QB)) (stack : list lentry) (clo : closures_t),
+    (forall n bond, In (n, bond) nbs -> exists a, zget atoms n = Some a) ->
+    exists stack' clo', cq_scan atoms front back seen nbs stack clo = Ok (stack', clo') /\ (length stack' <= length nbs + length stack)%nat.
+  Proof.
+    induction nbs as [|[n bond] r IH]; intros stack clo Hat; cbn [cq_scan length].
+    - exists stack, clo. split; [reflexivity | lia].
+    - assert (Hr : forall n' bond', In (n', bond') r -> exists a, zget atoms n' = Some a) by (intros; apply (Hat n' bond'); right; assumption).
+      destruct (opt_is back n).
+      + destruct (IH stack clo Hr) as (s' & c' & E & L). exists s', c'. split; [exact E | lia].
+      + destruct (zmem n seen).
+        * destruct (IH stack (clo_append clo front (n, bond)) Hr) as (s' & c' & E & L). exists s', c'. split; [exact E | lia].
+        * destruct (Hat n bond (or_introl eq_refl)) as [a ->].
+          destruct (IH ((n, Some front, a, Some bond) :: stack) clo Hr) as (s' & c' & E & L). exists s', c'. split; [exact E | cbn [length] in L; lia].
+  Qed.
+
+  Lemma cq_init_total start : forall (nbs : list (Z * QB)) (stack : list lentry),
+    (forall n bond, In (n, bond) nbs -> exists a, zget atoms n = Some a) ->
+    exists stack', cq_init atoms start nbs stack = Ok stack' /\ (length stack' <= length nbs + length stack)%nat.
+  Proof.
+    induction nbs as [|[n bond] r IH]; intros stack Hat; cbn [cq_init length].
+    - exists stack. split; [reflexivity | lia].
+    - destruct (Hat n bond (or_introl eq_refl)) as [a ->].
+      destruct (IH ((n, Some start, a, Some bond) :: stack)) as (s' & E & L); [intros; apply (Hat n0 bond0); right; assumption|].
+      exists s'. split; [exact E | cbn [length] in L; lia].
+  Qed.
+
+  Lemma adj_rev_atoms n nbs : zget bonds n = Some nbs -> forall m bond, In (m, bond) (rev nbs) -> exists a, zget atoms m = Some a.
+  Proof.
+    intros Hn m bond Hin. apply in_rev in Hin. apply (nb_is_atom n). rewrite (adj_get_zget _ _ Hn).
+    apply (in_map fst) in Hin. exact Hin.
+  Qed.
+
+  (* sum of the degrees of the atoms not yet seen *)
+  Definition udeg (seen : list Z) (b : list (Z * list (Z * QB))) : nat :=
+    fold_right (fun nl acc => ((if zmem (fst nl) seen then O else length (snd nl)) + acc)%nat) O b.
+
+  Lemma udeg_le_edges seen : forall b, (udeg seen b <= edge_count b)%nat.
+  Proof.
+    unfold edge_count. induction b as [|[n l] b IH]; cbn [udeg fold_right map concat fst snd]; [cbn; lia|].
+    rewrite app_length. fold (udeg seen b). destruct (zmem n seen); lia.
+  Qed.
+
+  Lemma udeg_mono x seen : forall b, (udeg (x :: seen) b <= udeg seen b)%nat.
+  Proof.
+    induction b as [|[n l] b IH]; cbn [udeg fold_right fst snd]; [lia|]. fold (udeg (x :: seen) b). fold (udeg seen b).
+    unfold zmem at 1. cbn [existsb]. fold (zmem n seen). destruct (n =? x); cbn [orb]; destruct (zmem n seen); lia.
+  Qed.
+
+  Lemma udeg_visit x seen nbs : forall b, zget b x = Some nbs -> zmem x seen = false ->
+    (udeg (x :: seen) b + length nbs <= udeg seen b)%nat.
+  Proof.
+    induction b as [|[n l] b IH]; intros H Hs; [discriminate|]. cbn [zget] in H. cbn [udeg fold_right fst snd].
+    fold (udeg (x :: seen) b). fold (udeg seen b). unfold zmem at 1. cbn [existsb]. fold (zmem n seen).
+    destruct (Z.eqb_spec x n) as [->|Hne].
+    - injection H as ->. rewrite Z.eqb_refl, Hs. cbn [orb]. pose proof (udeg_mono n seen b). lia.
+    - specialize (IH H Hs). destruct (Z.eqb_spec n x); [congruence|]. cbn [orb]. destruct (zmem n seen); lia.
+  Qed.
+
+  Lemma cq_dfs_seen_mono : forall fuel stack order clo seen order' clo' seen',
+    cq_dfs fuel atoms bonds stack order clo seen = Ok (order', clo', seen') -> incl seen seen'.
+  Proof.
+    induction fuel as [|fuel IH]; intros stack order clo seen order' clo' seen' H; [discriminate|].
+    cbn [cq_dfs] in H. destruct stack as [|[[[front back] a] b] st].
+    - injection H as _ _ <-. apply incl_refl.
+    - destruct (zmem front seen); [apply (IH _ _ _ _ _ _ _ H)|].
+      destruct (zget bonds front) as [nbs|]; [|discriminate].
+      destruct (cq_scan atoms front back seen (rev nbs) st clo) as [[st' clo1]|]; [|discriminate].
+      intros y Hy. apply (IH _ _ _ _ _ _ _ H). right. exact Hy.
+  Qed.
+
   (* ---------- the inner while loop: invariant ---------- *)
   Section Inner.
     Variable seen0 : list Z.                 (* atoms of the components finished before *)
@@ -238,6 +315,25 @@ Section Compile.
         + destruct (zget bonds front) as [nbs|] eqn:Enbs; [|discriminate].
           destruct (cq_scan atoms front back seen (rev nbs) st clo) as [[st' clo1]|] eqn:Escan; [|discriminate].
           apply (IH _ _ _ _ _ _ _ (inv_visit _ _ _ _ _ _ _ _ _ _ _ Hinv ltac:(intros Hc; apply zmem_In in Hc; congruence) Enbs Escan) H).
+    Qed.
+
+    (* the fuel S (edge_count bonds) is never exhausted and no KeyError is raised *)
+    Lemma cq_dfs_total : forall fuel stack order clo seen,
+      dfs_inv stack order clo seen -> (length stack + udeg seen bonds < fuel)%nat ->
+      exists r, cq_dfs fuel atoms bonds stack order clo seen = Ok r.
+    Proof.
+      induction fuel as [|fuel IH]; intros stack order clo seen Hinv Hm; [lia|].
+      cbn [cq_dfs]. destruct stack as [|[[[front back] a] b] st]; [eexists; reflexivity|]. cbn [length] in Hm.
+      destruct (zmem front seen) eqn:Es.
+      - apply IH; [apply (inv_discard _ _ _ _ _ _ _ _ Hinv (proj1 (zmem_In _ _) Es)) | lia].
+      - pose proof Hinv as (_ & _ & _ & _ & I5 & _).
+        destruct (I5 front back a b (or_introl eq_refl)) as (_ & _ & _ & _ & _ & _ & Ha).
+        destruct (atom_has_adj front (zget_Some_key _ _ _ Ha)) as [nbs Enbs]. rewrite Enbs.
+        destruct (cq_scan_total front back seen (rev nbs) st clo (adj_rev_atoms front nbs Enbs)) as (st' & clo' & Escan & L).
+        rewrite Escan. rewrite rev_length in L.
+        apply IH.
+        + apply (inv_visit _ _ _ _ _ _ _ _ _ _ _ Hinv ltac:(intros Hc; apply zmem_In in Hc; congruence) Enbs Escan).
+        + pose proof (udeg_visit front seen nbs bonds Enbs Es). lia.
     Qed.
   End Inner.
 
@@ -346,6 +442,68 @@ Section Compile.
       apply (out_inv_step comps clo seen x nbs stack a0); try assumption.
       + apply Hit. left. reflexivity.
       + intros Hc. apply zmem_In in Hc. congruence.
+  Qed.
+
+  Lemma dfs_inv_init comps clo seen x nbs stack a0 :
+    out_inv comps clo seen -> In x (keys atoms) -> ~ In x seen ->
+    zget bonds x = Some nbs -> cq_init atoms x (rev nbs) [] = Ok stack -> zget atoms x = Some a0 ->
+    dfs_inv seen clo stack [(x, None, a0, None)] clo (x :: seen).
+  Proof.
+    intros Hinv Hx Hs Hnbs Hinit Ha.
+    destruct Hinv as (O1 & O2 & O3 & O4 & O5 & O6).
+    pose proof (adj_get_zget _ _ Hnbs) as Eadj.
+    destruct (cq_init_spec _ _ _ _ Hinit) as (pushed & -> & Q1 & Q2). rewrite app_nil_r.
+    unfold dfs_inv. split; [reflexivity|]. split; [constructor; assumption|]. split; [discriminate|]. split; [|split; [|split; [|split; [|split]]]].
+    - cbn [lin_ok]. split; [intros []|]. split; [exact Ha|]. split; [split; reflexivity|].
+      rewrite (O6 x Hs). split; [constructor|]. split; [|exact I]. intros m bd. split; [intros [] | intros ([] & _)].
+    - intros n back a b Hin. destruct (Q1 _ Hin) as (n1 & bond & a1 & E & Hnb & Ha1). injection E as -> -> -> ->.
+      exists x, bond. split; [reflexivity|]. split; [reflexivity|]. split; [left; reflexivity|]. split; [|exact Ha1].
+      apply bond_In. rewrite Eadj. apply in_rev. exact Hnb.
+    - intros y Hy. apply O6. intros H. apply Hy. right. exact H.
+    - intros; reflexivity.
+    - intros y m [<-|[]] Hm. cbn [fst4] in Hm. destruct (In_key_zget _ _ Hm) as [bd Hbd]. apply zget_In in Hbd.
+      rewrite Eadj in Hbd. apply in_rev in Hbd. destruct (Q2 _ _ Hbd) as [a1 Ha1]. right. eauto.
+    - intros y [<-|Hy]; [exact Hx | apply O3; exact Hy].
+  Qed.
+
+  Lemma cq_outer_total : forall iter comps clo seen,
+    incl iter (keys atoms) -> out_inv comps clo seen ->
+    (forall y, In y (keys atoms) -> ~ In y seen -> In y iter) ->
+    exists r, cq_outer atoms bonds iter comps clo seen = Ok r.
+  Proof.
+    induction iter as [|x iter IH]; intros comps clo seen Hit Hinv Hun; rewrite cq_outer_unfold.
+    - destruct (Nat.ltb_spec (length seen) (length atoms)) as [Hlt|]; [|eexists; reflexivity]. exfalso.
+      assert (Hincl : incl (keys atoms) seen).
+      { intros y Hy. destruct (zmem y seen) eqn:E; [apply zmem_In; exact E|]. exfalso. apply (Hun y Hy). intros Hc. apply zmem_In in Hc. congruence. }
+      destruct wf as (Hn & _). apply (NoDup_incl_length Hn) in Hincl. unfold keys in Hincl. rewrite map_length in Hincl. lia.
+    - destruct (Nat.ltb_spec (length seen) (length atoms)) as [Hlt|]; [|eexists; reflexivity].
+      assert (Hit' : incl iter (keys atoms)) by (intros y Hy; apply Hit; right; exact Hy).
+      destruct (zmem x seen) eqn:Es.
+      + apply IH; [exact Hit' | exact Hinv|]. intros y Hy Hs. destruct (Hun y Hy Hs) as [<-|H]; [|exact H].
+        exfalso. apply Hs. apply zmem_In. exact Es.
+      + assert (Hx : In x (keys atoms)) by (apply Hit; left; reflexivity).
+        assert (Hxs : ~ In x seen) by (intros Hc; apply zmem_In in Hc; congruence).
+        destruct (atom_has_adj x Hx) as [nbs Enbs]. rewrite Enbs.
+        destruct (cq_init_total x (rev nbs) [] (adj_rev_atoms x nbs Enbs)) as (stack & Einit & L). rewrite Einit.
+        destruct (In_key_zget _ _ Hx) as [a0 Ea]. rewrite Ea.
+        pose proof (dfs_inv_init comps clo seen x nbs stack a0 Hinv Hx Hxs Enbs Einit Ea) as Hinv0.
+        assert (Hm : (length stack + udeg (x :: seen) bonds < S (edge_count bonds))%nat).
+        { rewrite rev_length in L. cbn [length] in L. pose proof (udeg_visit x seen nbs bonds Enbs Es). pose proof (udeg_le_edges seen bonds). lia. }
+        destruct (cq_dfs_total seen clo (seen_closed _ _ _ Hinv) _ _ _ _ _ Hinv0 Hm) as ([[order clo1] seen1] & Edfs). rewrite Edfs.
+        apply IH; [exact Hit' | apply (out_inv_step comps clo seen x nbs stack a0); assumption |].
+        intros y Hy Hs. pose proof (cq_dfs_seen_mono _ _ _ _ _ _ _ _ Edfs) as Hmono.
+        destruct (Hun y Hy) as [<-|H]; [intros Hc; apply Hs, Hmono; right; exact Hc | | exact H].
+        exfalso. apply Hs, Hmono. left. reflexivity.
+  Qed.
+
+  (* on a well-formed graph _compile_query returns: no KeyError, no StopIteration, the loop bound is never reached *)
+  Theorem compile_query_total : exists comps clo, compile_query atoms bonds = Ok (comps, clo).
+  Proof.
+    assert (Hinv0 : out_inv [] [] []).
+    { unfold out_inv. split; [reflexivity|]. split; [constructor|]. split; [intros ? []|]. split; [intros ? []|]. split; [intros ? ? ? []|].
+      intros; reflexivity. }
+    destruct (cq_outer_total (keys atoms) [] [] [] (incl_refl _) Hinv0 ltac:(intros y Hy _; exact Hy)) as ([comps clo] & E).
+    exists comps, clo. exact E.
   Qed.
 
   (* every atom lies in exactly one linear order, every order is a correct linearisation of a set of atoms that no bond
